@@ -347,6 +347,10 @@ WORDS = ['test', '#c', '#c,#d', '*', 'LS', 'ACK', 'NAK', 'NEW', 'DEL', 'LIST', '
          '=', '@', ':', '', '0', '-1', '99999999999999999999', 'é', '中', '\x01ACTION x\x01', '\x01', '+batchid', '-batchid', 'netsplit', 'chathistory', 'a' * 600,
          'PLAIN', 'EXTERNAL', 'SCRAM-SHA-256', '+', 'AAAA', '====', 'dGVzdA==', 'CHANTYPES=', 'PREFIX=', 'PREFIX=(ov', 'PREFIX=(ov)@+', 'CHANMODES=', 'CHANMODES=a,b',
          'NICKLEN=x', 'STATUSMSG=@+', 'TARGMAX=', 'test test test', 'H@', 'G*+', 'closing link', 'too fast']
+ISUPPORT = ['CHANTYPES', 'CHANTYPES=', 'CHANTYPES=#', 'CHANNELLEN', 'CHANNELLEN=', 'CHANNELLEN=x', 'CHANNELLEN=0', 'PREFIX', 'PREFIX=', 'PREFIX=(ov', 'PREFIX=(ov)@', 'PREFIX=ov@+',
+            'CHANMODES', 'CHANMODES=', 'CHANMODES=a', 'CHANMODES=,,,', 'STATUSMSG', 'STATUSMSG=', 'STATUSMSG=@+#', 'MODES', 'MODES=', 'MODES=x', 'NICKLEN', 'NICKLEN=', 'NICKLEN=-1',
+            'CASEMAPPING', 'CASEMAPPING=', 'CASEMAPPING=weird', 'TARGMAX', 'TARGMAX=PRIVMSG', 'TARGMAX=:', 'MAXLIST', 'MAXLIST=b', 'CHANLIMIT', 'CHANLIMIT=#', 'NETWORK', 'NETWORK=',
+            '-CHANTYPES', '-PREFIX', 'EXCEPTS', 'INVEX=', 'ELIST=', 'TOPICLEN=x', 'KICKLEN', 'AWAYLEN=', 'WHOX', 'MONITOR', 'BOT', 'BOT=', 'UTF8ONLY', '=', '=x', 'A=B=C']
 USER_CMDS = ['help "\\ud800"', 'echo "\\ud800"', '"\\ud800"', 'help', 'list', 'echo hi', 'ping', 'echo "\\x00\\r\\nQUIT"', 'echo ' + 'é' * 300, 'version', 'whoami',
              'echo [echo [echo x', 'echo ]', 'help "\\udfff\\ud800"', 'config help "\\ud83d"']
 TARGETED = ['ERROR :Closing link: (flood)', 'ERROR :Trying to reconnect too fast, wait', 'CAP * LS :sts=port=6697,duration=100 sasl', ':srv CAP * LS :sts',
@@ -369,6 +373,8 @@ def gen_hostile_line(r):
     elif k < 10:
         return (tag + pfx + r.choice(['PING', 'PING :' + r.choice(['a', 'é', 'x y', 'a\rb', '']), 'ping lower', 'PiNg Mixed', 'PING a b'])).encode()
     elif k < 11:
+        if r.random() < 0.4:
+            return (':srv 005 test ' + ' '.join(r.choice(ISUPPORT) for _ in range(r.randint(1, 4))) + r.choice([' :are supported by this server', '', ' :'])).encode()
         return r.choice(c11.HOSTILE_LINES + TARGETED).encode()
     elif k < 12:
         l = (tag + pfx + r.choice(CMDS + NUMS) + ' ' + ' '.join(r.choice(WORDS) for _ in range(r.randint(0, 3)))).encode()
@@ -418,7 +424,7 @@ def run_l3(rig, r, lines, fault, probe_key):
     registered = st.name in rig.drivers._drivers and st.name not in rig.drivers._deadDrivers
     reconnects = st.reconnects
     # the property probe: let any scheduled reconnect happen, then PING
-    answered = None
+    answered = None; heard = None
     if registered:
         for _ in range(3):
             if d.connected: break
@@ -428,8 +434,15 @@ def run_l3(rig, r, lines, fault, probe_key):
             rig.sock.recvs.append(('d', b'PING :' + probe_key + b'\r\n'))
             for _ in range(3): rig.drivers.run()
             answered = (b'PONG :' + probe_key) in pongs_of(rig.sock.sent[n0:])
+            # a channel message must still be processed as well (the per-message channel lookup is on every path)
+            n1 = len(rig.sock.sent)
+            rig.sock.recvs.append(('d', b':prober!u@h PRIVMSG #probe :@echo ' + probe_key + b'\r\n'))
+            for _ in range(3): rig.drivers.run()
+            time.sleep(0)      # (commands run in this thread unless threaded)
+            # (any reply counts: a server-imposed 600-character nick legitimately leaves no room for the text)
+            heard = b'#probe' in rig.sock.sent[n1:] or b'prober' in rig.sock.sent[n1:]
     obs = {'registered': registered, 'crash': st.crash, 'reconnects': reconnects, 'pongs': batch_pongs, 'answered': answered,
-           'connected': d.connected, 'zombie': irc.zombie}
+           'connected': d.connected, 'zombie': irc.zombie, 'heard': heard}
     if irc in rig.b.world.ircs: rig.b.world.ircs.remove(irc)
     return obs, ops
 
@@ -449,6 +462,8 @@ def l3_cases(rig, r, n):
                 key.decode(), obs['connected'], obs['reconnects'], fault, lines)
         elif obs['answered'] is None:
             ok = False; msg = 'driver still registered but never reconnected within the scheduled delay after %r' % (lines,)
+        elif obs['heard'] is False and not (fault and fault[1] == 'drop'):
+            ok = False; msg = "'@echo %s' said in a channel after the batch got no reply (PING was answered; fault=%r) after %r" % (key.decode(), fault, lines)
         comparable = obs['reconnects'] == 0 and obs['registered'] and not (fault and fault[1] == 'drop' and fault[0] == 'outFilter') \
             and all(len(l) < 400 for l in lines)
         impl = 'registered=%d answered=%s' % (obs['registered'], obs['answered'])
